@@ -722,7 +722,7 @@ impl Check for C19 {
         "C19"
     }
     fn level(&self) -> &'static str {
-        "fault_injection_sim"
+        "exploration"
     }
     fn technique(&self) -> &'static str {
         "seeded whole-engine simulation with planted canary secrets: configuration layers, environment and overrides drawn from the seed (incl. syntactically broken config files), scripted provider faults (HTTP error echoing the request, transport errors, unreachable endpoint, validation error), tool failures, request dumping on/off; every write buffer is observed at the libc seam and all persisted files, router responses, SSE streams and process stdout/stderr are searched afterwards"
